@@ -45,10 +45,9 @@ def _token(c0=True):
         (1, st.characters(min_codepoint=0xE000, max_codepoint=0xFFFD)),
         (1, st.characters(min_codepoint=0x10000, max_codepoint=0x10FFFF)),
     ]
+    pools.append((2, st.sampled_from(["\r", "\r\n", "\r"])))
     if c0:
         pools.append((4, st.sampled_from(C0_OTHER)))
-    else:
-        pools.append((1, st.just("\r")))
     flat = []
     for w, s in pools:
         flat.extend([s] * w)
